@@ -10,6 +10,7 @@ import (
 	"encoding/binary"
 	"errors"
 	"io"
+	"math"
 	"time"
 )
 
@@ -223,12 +224,19 @@ func readField(r io.Reader) (v interface{}, err error) {
 		if err = binary.Read(r, binary.BigEndian, &value); err != nil {
 			return
 		}
+		if math.IsNaN(float64(value)) || math.IsInf(float64(value), 0) {
+			// JSON has no NaN / Inf: such a field would make the whole item unmarshalable
+			return nil, nil
+		}
 		return value, nil
 
 	case 'd':
 		var value float64
 		if err = binary.Read(r, binary.BigEndian, &value); err != nil {
 			return
+		}
+		if math.IsNaN(value) || math.IsInf(value, 0) {
+			return nil, nil
 		}
 		return value, nil
 
